@@ -242,11 +242,20 @@ def run_case(case, ctx):
         dim = case["dim"]
         Hd = numpy.array(case["H"], dtype=float)
         split = case["rwa_split"]
+        # two or three rotating-wave blocks; the block mean energies of three blocks are not equidistant
+        rwab = [0, split]
+        if dim >= 3 and case["seed"] % 2 == 1:
+            s2 = split + 1 + (case["seed"] // 2) % (dim - split) if split < dim - 1 else None
+            if s2 is not None and s2 < dim:
+                rwab = [0, split, s2]
+        blocks = [(rwab[k], rwab[k + 1] if k + 1 < len(rwab) else dim) for k in range(len(rwab))]
+        boffs = [0.0, case["offset"], 2.37 * case["offset"]][:len(blocks)]
         # no coupling between the RWA blocks (as in an aggregate Hamiltonian): only then is the rotating frame exact
         Hblk = Hd.copy()
-        Hblk[:split, split:] = 0.0
-        Hblk[split:, :split] = 0.0
-        Hlab = Hblk + numpy.diag([0.0 if i < split else case["offset"] for i in range(dim)])
+        for (lo_, hi_) in blocks:
+            Hblk[lo_:hi_, :lo_] = 0.0
+            Hblk[lo_:hi_, hi_:] = 0.0
+        Hlab = Hblk + numpy.diag([boffs[k] for k, (lo_, hi_) in enumerate(blocks) for _ in range(lo_, hi_)])
         order = case["order"]
         nref = case["nref"]
         method = "short-exp-%d" % order
@@ -254,7 +263,7 @@ def run_case(case, ctx):
         psi0 = rng.normal(size=dim) + 1j * rng.normal(size=dim)
         psi0 /= numpy.linalg.norm(psi0)
         rho0 = numpy.outer(psi0, psi0.conj())
-        det = {"dim": dim, "order": order, "Nref": nref, "Nt": case["Nt"], "dt": case["dt"], "work_per_step": nref * order}
+        det = {"dim": dim, "order": order, "Nref": nref, "Nt": case["Nt"], "dt": case["dt"], "work_per_step": nref * order, "rwa_blocks": [list(b_) for b_ in blocks]}
         # ---- (1) no RWA: everything in the frame of Hd
         with ctx.lib("closed-system propagation (no RWA)", mechanism=None):
             H1 = qr.Hamiltonian(data=Hd.copy())
@@ -298,7 +307,7 @@ def run_case(case, ctx):
         with ctx.lib("re-used propagator after the Hamiltonian changed", mechanism=None):
             H1.data = Hd2.copy()
             d_b = numpy.array(p.propagate(qr.ReducedDensityMatrix(data=rho0.copy()), method=method, Nref=nref).data)
-            H1.set_rwa([0, split])
+            H1.set_rwa(list(rwab))
             ev_c = p.propagate(qr.ReducedDensityMatrix(data=rho0.copy()), method=method, Nref=nref)
             c_rwa = bool(ev_c.is_in_rwa)
             ev_c.convert_from_RWA(H1)
@@ -317,7 +326,7 @@ def run_case(case, ctx):
         # ---- (2) same physics with a large optical offset: RWA-then-converted-back must equal the laboratory-frame dynamics
         with ctx.lib("closed-system propagation (RWA, converted back)", mechanism=None):
             H2 = qr.Hamiltonian(data=Hlab.copy())
-            H2.set_rwa([0, split])
+            H2.set_rwa(list(rwab))
             ev2 = qm.ReducedDensityMatrixPropagator(t, H2).propagate(qr.ReducedDensityMatrix(data=rho0.copy()), method=method, Nref=nref)
             was_rwa = bool(ev2.is_in_rwa)
             ev2.convert_from_RWA(H2)
@@ -343,8 +352,8 @@ def run_case(case, ctx):
         # truncation bound in the rotating frame (block averages removed)
         e = numpy.diag(Hlab)
         blk = numpy.zeros(dim)
-        blk[:split] = numpy.mean(e[:split])
-        blk[split:] = numpy.mean(e[split:])
+        for (lo_, hi_) in blocks:
+            blk[lo_:hi_] = numpy.mean(e[lo_:hi_])
         Lr = gksl.hamiltonian_part(Hlab - numpy.diag(blk))
         bR, xR, MR = gksl.taylor_bounds(Lr, case["dt"] / nref, order, nref, case["Nt"], 1.0)
         bR = bR * 4 + 1e-11
